@@ -3,9 +3,12 @@
 X2 left/right event tables are symmetric
 X1 declared mirrored code pairs are exact duals under a typed reflection (see x1_pairs.py)
 """
+import ast
 import re
 
 from ..engine.enumtables import EventTables, ISO
+from ..engine.program import src, walk_no_nested, call_name, enclosing_stmt
+from ..engine import flow
 
 
 def twin(name):
@@ -71,7 +74,62 @@ def x2(prog, ctx):
     return pairs
 
 
+def _sentinel_guarded(node, text, stop):
+    """True if whenever `node` executes the expression `text` is known to differ from the 'not found' sentinel -1."""
+    for atom, pol in flow.guard_facts(node, stop):
+        if isinstance(atom, ast.Compare) and len(atom.ops) == 1 and src(atom.comparators[0]) == "-1" and src(atom.left) == text:
+            if (isinstance(atom.ops[0], ast.Eq) and not pol) or (isinstance(atom.ops[0], ast.NotEq) and pol):
+                return True
+    return False
+
+
+def x3(prog, ctx):
+    """-1 ('site not found') is not a coordinate and has no mirror image: it must never enter coordinate arithmetic."""
+    PV = "src/polya_verification.py"
+    n = 0
+    funcs = {q: f for m, q, f in prog.all_functions() if m.rel == PV}
+    for q, f in sorted(funcs.items()):
+        for p in [a.arg for a in f.args.args if re.search(r"poly[at]_pos$", a.arg)]:
+            uses = []
+            for node in walk_no_nested(f):
+                if isinstance(node, ast.Name) and node.id == p and isinstance(node.ctx, ast.Load):
+                    par = node._parent
+                    arith = isinstance(par, ast.BinOp) or (isinstance(par, ast.Compare) and
+                                                           any(isinstance(o, (ast.Lt, ast.LtE, ast.Gt, ast.GtE)) for o in par.ops))
+                    if arith:
+                        uses.append(node)
+            if not uses:
+                continue
+            n += 1
+            unguarded = [u for u in uses if not _sentinel_guarded(u, p, f)]
+            if not unguarded:
+                ctx.ok("X3", "%s:%d" % (PV, f.lineno), "%s: every arithmetic use of %s is behind a `%s == -1` exit / `!= -1` test" % (q, p, p))
+                continue
+            # the callee relies on its callers: every call site must pass a value known to differ from -1
+            pos = [a.arg for a in f.args.args].index(p) - (1 if f.args.args[0].arg in ("self", "cls") else 0)
+            bad = None
+            ncalls = 0
+            for m2, q2, f2 in prog.all_functions():
+                for c in walk_no_nested(f2):
+                    if isinstance(c, ast.Call) and (call_name(c) or "").split(".")[-1] == q.split(".")[-1] and len(c.args) > pos:
+                        ncalls += 1
+                        if not _sentinel_guarded(c, src(c.args[pos]), f2):
+                            bad = bad or (m2, q2, c)
+            if bad:
+                ctx.fail("X3", bad[2], bad[1], "%s passes %s" % (src(bad[2])[:70], src(bad[2].args[pos])),
+                         "%s computes with its parameter %s (e.g. `%s`) without testing it for the 'not found' value -1, and this caller "
+                         "passes %s without such a test either: -1 enters coordinate arithmetic, where it yields a plausible-looking "
+                         "position on one strand and junk on the other (the sentinel has no mirror image)"
+                         % (q, p, src(enclosing_stmt(unguarded[0]))[:50], src(bad[2].args[pos])))
+            else:
+                ctx.ok("X3", "%s:%d" % (PV, f.lineno), "%s does not test %s itself, but all %d call sites pass a value tested against -1" % (q, p, ncalls))
+    ctx.floor("X3", "functions computing with a polyA/polyT position parameter", n, 4)
+
+
 def run(prog, ctx):
+    ctx.rule("X3", "a parameter named *polya_pos / *polyt_pos that is used in arithmetic or an ordering comparison is protected from the "
+                   "sentinel -1 by a dominating `== -1` exit / `!= -1` test in the function, or at every call site")
+    x3(prog, ctx)
     ctx.rule("X2", "every *_left member of MatchEventSubtype has a *_right twin; twins lie in the same classification sets, "
                    "have equal cost, mirrored printable names, and alternative_sites is side-symmetric")
     x2(prog, ctx)
